@@ -63,6 +63,23 @@ static void bounds_run(Ctx& c) {
     std::set<Pomerol::IndexCombination4> q; q.insert(Pomerol::IndexCombination4((Pomerol::ParticleIndex)i, (Pomerol::ParticleIndex)j, (Pomerol::ParticleIndex)k, (Pomerol::ParticleIndex)l));
     C4.prepareAll(q); C4.computeAll(false); acc += cd(C4((Pomerol::ParticleIndex)i, (Pomerol::ParticleIndex)j, (Pomerol::ParticleIndex)k, (Pomerol::ParticleIndex)l)(0, 0, 0));
     Pomerol::TwoParticleGFContainer C5(*p.IC, *p.S, *p.H, *p.DM, *p.Ops); C5.prepareAll(q); C5.computeAll(true, one, boost::mpi::communicator(), true);
+    // --- repeated calls of the early workflow stages (the later stages guard on their status; see the idempotence monitors of the other drivers):
+    //     IndexClassification::prepare() called again with the same and with the other ordering, in a child process
+    {
+        IsoResult ir = run_isolated([&]() -> std::string {
+            Pomerol::Lattice L2; apply_model(m, L2);
+            Pomerol::IndexClassification IC2(L2.getSiteMap());
+            IC2.prepare(m.spin_major); const long n1 = (long)IC2.getIndexSize();
+            IC2.prepare(m.spin_major); const long n2 = (long)IC2.getIndexSize();
+            IC2.prepare(!m.spin_major); const long n3 = (long)IC2.getIndexSize();
+            long bad = 0; for (long q = 0; q < n3; ++q) if ((long)IC2.getIndex(IC2.getInfo((Pomerol::ParticleIndex)q)) != q) ++bad;
+            return "sizes " + std::to_string(n1) + " " + std::to_string(n2) + " " + std::to_string(n3) + " bad " + std::to_string(bad);
+        }, 30);
+        const bool alive = ir.exited && ir.exit_code == 0 && ir.out.compare(0, 4, "EXC:") != 0;
+        c.check("repeated-call", "C17:repeated-call:IndexClassification::prepare:" + (alive ? std::string("ok") : (ir.exited ? std::string("exception-or-exit") : sig_name(ir.sig))), alive,
+                [&] { return "IndexClassification::prepare() called a second and third time on the same object (N=" + std::to_string(N) + "): child " + (ir.exited ? "exited with " + std::to_string(ir.exit_code) + " output '" + ir.out.substr(0, 120) + "'" : "was killed by " + sig_name(ir.sig)); });
+        c.count("repeated_prepare_probes");
+    }
     c.check("finite", "C17:workflow:non-finite", std::isfinite(acc.real()) && std::isfinite(acc.imag()), [&] { return "sum of observed values is not finite: " + fmt(acc); });
     c.nontrivial = dim >= 2;
 }
